@@ -986,7 +986,7 @@ def to_var_from_choi(
         variables.
     """
     # Choi matrix to hs
-    hs = to_choi_from_hs_with_sparsity(c_sys, choi)
+    hs = to_hs_from_choi_with_sparsity(c_sys, choi)
 
     # hs to var
     var = convert_hs_to_var(c_sys, hs, on_para_eq_constraint)
